@@ -2864,6 +2864,11 @@ def groupby_reduce(
                 "arg-reductions are not supported with method='blockwise', use 'cohorts' instead."
             )
 
+        if _is_arg_reduction(agg) and method != "blockwise" and nax != 1:
+            raise NotImplementedError(
+                "For dask arrays: arg-reductions are only supported along a single axis. Please reshape appropriately."
+            )
+
         if nax != by_.ndim and method in ["blockwise", "cohorts"]:
             raise NotImplementedError(
                 "Must reduce along all dimensions of `by` when method != 'map-reduce'."
